@@ -1,3 +1,3 @@
 package main
 
-func runExtra(name string, cfg *PropConfig, tier string, w *World) *FuncReport { return nil }
+func runLayout(cfg *PropConfig, w *World) *FuncReport { return nil }
